@@ -105,7 +105,12 @@ func (s *expStepBStructure) commitmentsFromProof(g zkproof.Group, list []*big.In
 	proofs := zkproof.NewProofMerge(&proof.Bit, &proof.Mul)
 
 	// Generate commitments
-	list = s.mul.commitmentsFromProof(g, list, challenge, proof.Mul)
+	// The multiplier of this step has to be the value in the commitment named mulname of the
+	// surrounding proof (a power of the base): its representation is therefore rebuilt from that
+	// commitment, found through bases, and not from proof.Mul.Commit, which the prover could
+	// choose freely (an honest prover sends a copy of the surrounding commitment there).
+	list = append(list, proof.Mul.Commit)
+	list = s.mul.representation.CommitmentsFromProof(g, list, challenge, bases, &proofs)
 	list = s.bitRep.CommitmentsFromProof(g, list, challenge, bases, &proofs)
 	list = s.prePostMul.commitmentsFromProof(g, list, challenge, bases, &proofs, proof.MultiplicationProof)
 
